@@ -6,5 +6,7 @@ INVARIANT RespConforms
 INVARIANT CoapRequestShape
 INVARIANT CoapAttribution
 INVARIANT CoapConforms
+INVARIANT CoapIdAttribution
+INVARIANT CoapMapConforms
 POSTCONDITION ExportVerdicts
 CHECK_DEADLOCK FALSE
